@@ -294,7 +294,10 @@ class Source:
         | 'macro name'.  Returns list of matching Items of the last element (usually one)."""
         scopes = [(0, len(self.text), self.top)]
         for depth, el in enumerate(path):
-            kind, _, name = el.partition(" ")
+            if el.startswith("impl<"):
+                kind, name = "impl", el[4:]
+            else:
+                kind, _, name = el.partition(" ")
             name = name.strip()
             nxt = []
             found = []
